@@ -123,7 +123,9 @@ func Run(c *fw.Ctx) {
 			coarse = "symmetric-indefinite-or-any"
 		}
 		is := &cholesky.InSitu{}
-		cs.Sample(map[string]any{"routine": "cholesky", "mode": mode, "type": t.Name, "class": fine, "A": inputs[0].Rows()})
+		if sampleWorthy(map[string]any{"routine": "cholesky", "mode": mode, "type": t.Name, "class": fine, "A": inputs[0].Rows()}) {
+			cs.Sample(map[string]any{"routine": "cholesky", "mode": mode, "type": t.Name, "class": fine, "A": inputs[0].Rows()})
+		}
 		twoCalls(cs, "cholesky", t, fine, coarse, inputs, inSitu, func(A *la.Mat, idx int, fresh bool) (verdict, string, string) {
 			var p *cholesky.InSitu
 			if !fresh {
@@ -144,7 +146,9 @@ func Run(c *fw.Ctx) {
 		inSitu := r.Chance(0.35)
 		inputs := []*la.Mat{genTall(fine, m, n, r), genTall(fine, m, n, r)}
 		is := &gramSchmidt.InSitu{}
-		cs.Sample(map[string]any{"routine": "gramSchmidt", "type": t.Name, "class": fine, "A": inputs[0].Rows()})
+		if sampleWorthy(map[string]any{"routine": "gramSchmidt", "type": t.Name, "class": fine, "A": inputs[0].Rows()}) {
+			cs.Sample(map[string]any{"routine": "gramSchmidt", "type": t.Name, "class": fine, "A": inputs[0].Rows()})
+		}
 		twoCalls(cs, "gramSchmidt", t, fine, coarseTall[fine], inputs, inSitu, func(A *la.Mat, idx int, fresh bool) (verdict, string, string) {
 			var p *gramSchmidt.InSitu
 			if !fresh {
@@ -165,7 +169,9 @@ func Run(c *fw.Ctx) {
 		inSitu := r.Chance(0.35)
 		inputs := []*la.Mat{genTall(fine, m, n, r), genTall(fine, m, n, r)}
 		is := &householderBidiagonalization.InSitu{}
-		cs.Sample(map[string]any{"routine": "householderBidiagonalization", "type": t.Name, "class": fine, "ComputeU": cu, "ComputeV": cv, "A": inputs[0].Rows()})
+		if sampleWorthy(map[string]any{"routine": "householderBidiagonalization", "type": t.Name, "class": fine, "ComputeU": cu, "ComputeV": cv, "A": inputs[0].Rows()}) {
+			cs.Sample(map[string]any{"routine": "householderBidiagonalization", "type": t.Name, "class": fine, "ComputeU": cu, "ComputeV": cv, "A": inputs[0].Rows()})
+		}
 		twoCalls(cs, "householderBidiagonalization", t, fine, coarseTall[fine], inputs, inSitu, func(A *la.Mat, idx int, fresh bool) (verdict, string, string) {
 			var p *householderBidiagonalization.InSitu
 			if !fresh {
@@ -185,7 +191,9 @@ func Run(c *fw.Ctx) {
 		inSitu := r.Chance(0.35)
 		inputs := []*la.Mat{genSym(fine, n, false, 1e6, r), genSym(fine, n, false, 1e6, r)}
 		is := &householderTridiagonalization.InSitu{}
-		cs.Sample(map[string]any{"routine": "householderTridiagonalization", "type": t.Name, "class": fine, "ComputeU": cu, "A": inputs[0].Rows()})
+		if sampleWorthy(map[string]any{"routine": "householderTridiagonalization", "type": t.Name, "class": fine, "ComputeU": cu, "A": inputs[0].Rows()}) {
+			cs.Sample(map[string]any{"routine": "householderTridiagonalization", "type": t.Name, "class": fine, "ComputeU": cu, "A": inputs[0].Rows()})
+		}
 		twoCalls(cs, "householderTridiagonalization", t, fine, coarseSym[fine], inputs, inSitu, func(A *la.Mat, idx int, fresh bool) (verdict, string, string) {
 			var p *householderTridiagonalization.InSitu
 			if !fresh {
@@ -206,7 +214,9 @@ func Run(c *fw.Ctx) {
 		inSitu := r.Chance(0.35)
 		in1, in2 := genSquare(fine, n, r), genSquare(fine, n, r)
 		is := &hessenbergReduction.InSitu{}
-		cs.Sample(map[string]any{"routine": "hessenbergReduction", "type": t.Name, "class": fine, "ComputeU": cu, "SetZero": setZero, "A": in1.A.Rows()})
+		if sampleWorthy(map[string]any{"routine": "hessenbergReduction", "type": t.Name, "class": fine, "ComputeU": cu, "SetZero": setZero, "A": in1.A.Rows()}) {
+			cs.Sample(map[string]any{"routine": "hessenbergReduction", "type": t.Name, "class": fine, "ComputeU": cu, "SetZero": setZero, "A": in1.A.Rows()})
+		}
 		twoCalls(cs, "hessenbergReduction", t, fine, coarseSq[fine], []*la.Mat{in1.A, in2.A}, inSitu, func(A *la.Mat, idx int, fresh bool) (verdict, string, string) {
 			var p *hessenbergReduction.InSitu
 			if !fresh {
@@ -242,7 +252,9 @@ func Run(c *fw.Ctx) {
 		}
 		is := &qrAlgorithm.InSitu{}
 		cs.Cover("epsilon:qrAlgorithm/" + epsLabel(o.Eps))
-		cs.Sample(map[string]any{"routine": "qrAlgorithm", "type": t.Name, "class": fine, "opts": o.String(), "epsilon": epsLabel(o.Eps), "A": ins[0].A.Rows()})
+		if sampleWorthy(map[string]any{"routine": "qrAlgorithm", "type": t.Name, "class": fine, "opts": o.String(), "epsilon": epsLabel(o.Eps), "A": ins[0].A.Rows()}) {
+			cs.Sample(map[string]any{"routine": "qrAlgorithm", "type": t.Name, "class": fine, "opts": o.String(), "epsilon": epsLabel(o.Eps), "A": ins[0].A.Rows()})
+		}
 		twoCalls(cs, "qrAlgorithm", t, fine, coarse, []*la.Mat{ins[0].A, ins[1].A}, inSitu, func(A *la.Mat, idx int, fresh bool) (verdict, string, string) {
 			var p *qrAlgorithm.InSitu
 			if !fresh {
@@ -279,7 +291,9 @@ func Run(c *fw.Ctx) {
 		}
 		is := &eigensystem.InSitu{}
 		cs.Cover("epsilon:eigensystem/" + epsLabel(o.Eps))
-		cs.Sample(map[string]any{"routine": "eigensystem", "type": t.Name, "class": fine, "opts": o.String(), "epsilon": epsLabel(o.Eps), "A": ins[0].A.Rows()})
+		if sampleWorthy(map[string]any{"routine": "eigensystem", "type": t.Name, "class": fine, "opts": o.String(), "epsilon": epsLabel(o.Eps), "A": ins[0].A.Rows()}) {
+			cs.Sample(map[string]any{"routine": "eigensystem", "type": t.Name, "class": fine, "opts": o.String(), "epsilon": epsLabel(o.Eps), "A": ins[0].A.Rows()})
+		}
 		twoCalls(cs, "eigensystem", t, fine, coarse, []*la.Mat{ins[0].A, ins[1].A}, inSitu, func(A *la.Mat, idx int, fresh bool) (verdict, string, string) {
 			var p *eigensystem.InSitu
 			if !fresh {
@@ -305,7 +319,9 @@ func Run(c *fw.Ctx) {
 		is := &svd.InSitu{}
 		es := epsLabel(epsOpt)
 		cs.Cover("epsilon:svd/" + es)
-		cs.Sample(map[string]any{"routine": "svd", "type": t.Name, "class": fine, "ComputeU": cu, "ComputeV": cv, "epsilon": es, "A": inputs[0].Rows()})
+		if sampleWorthy(map[string]any{"routine": "svd", "type": t.Name, "class": fine, "ComputeU": cu, "ComputeV": cv, "epsilon": es, "A": inputs[0].Rows()}) {
+			cs.Sample(map[string]any{"routine": "svd", "type": t.Name, "class": fine, "ComputeU": cu, "ComputeV": cv, "epsilon": es, "A": inputs[0].Rows()})
+		}
 		twoCalls(cs, "svd", t, fine, coarseTall[fine], inputs, inSitu, func(A *la.Mat, idx int, fresh bool) (verdict, string, string) {
 			var p *svd.InSitu
 			if !fresh {
@@ -327,9 +343,22 @@ func Run(c *fw.Ctx) {
 		if inverse {
 			routine = "msqrtInv"
 		}
-		cs.Sample(map[string]any{"routine": routine, "type": t.Name, "class": fine, "A": A.Rows()})
+		if sampleWorthy(map[string]any{"routine": routine, "type": t.Name, "class": fine, "A": A.Rows()}) {
+			cs.Sample(map[string]any{"routine": routine, "type": t.Name, "class": fine, "A": A.Rows()})
+		}
 		twoCalls(cs, routine, t, fine, "spd", []*la.Mat{A}, false, func(A *la.Mat, idx int, fresh bool) (verdict, string, string) {
 			return runMsqrt(t, A, inverse), "default", "default"
 		})
 	})
+}
+
+// sampleWorthy: write out only cases whose operand has at least three rows
+// (the evidence keeps the first two samples per case list).
+func sampleWorthy(v map[string]any) bool {
+	for _, k := range []string{"A", "R"} {
+		if rows, ok := v[k].([][]float64); ok {
+			return len(rows) >= 3
+		}
+	}
+	return true
 }
